@@ -71,7 +71,8 @@ META = {
                     "and ignored by design)"],
     "probes": ["pair_defined_both", "pair_undefined_both", "triple_checked", "delivery_conflict_free",
                "delivery_conflicting", "program_level", "inference_failed_consistently",
-               "statement_ids_repeat_across_phases", "phase_without_statements", "public_infer_kinds_entry"],
+               "statement_ids_repeat_across_phases", "phase_without_statements", "public_infer_kinds_entry",
+               "long_chain_program"],
  },
 }
 
@@ -393,10 +394,14 @@ def run_c14(ctx):
     # ---- program level (worker subprocesses), every second run
     with tape.span("program"):
         if tape.chance(0.5, "proglevel"):
-            source = ["fortran", "adversarial", "adversarial"][tape.draw(3, "source")]
+            source = ["fortran", "adversarial", "adversarial", "chain"][tape.draw(4, "source")]
             if source == "fortran":
                 from simdag.gen.fortran_subset import FortranGen
                 _sc, values = sub_values(tape, lambda: FortranGen(tape, max_ops=8).gen())
+            elif source == "chain":
+                from simdag.gen.kinds import chain
+                _p, values = sub_values(tape, lambda: chain(tape))
+                ctx.count("probe:long_chain_program")
             else:
                 from simdag.gen.kinds import adversarial
                 _p, values = sub_values(tape, lambda: adversarial(tape))
